@@ -364,6 +364,8 @@ class CT:
                 return "%s[%s..%s]" % (r(l[1][1]), r(l[2]), r(l[3]))
             if l[0] == "I" and l[1][0] == "P":
                 return "&%s[%s]" % (r(l[1][1]), r(l[2]))
+            if l[0] == "S":
+                return self.loc(l)          # a slice is always a reference
             return "&" + self.loc(l)
         if k == "and":
             a, b = r(x[1]), r(x[2])
@@ -455,6 +457,16 @@ class CT:
             s = self.linear(("call", e["id"], e["key"], tuple(e["args"]), e["result"][4] if e.get("result") else ""), depth)
             if s is not None:
                 return s
+        if nm in ("index", "index_mut") and len(e["args"]) == 2:
+            rg = norm(e["args"][1])
+            if rg[0] == "agg" and rg[1] == "adt" and (rg[2] or "").startswith(("core::ops::range::", "std::ops::")):
+                f_ = dict(zip(rg[4], rg[5]))
+                base = args[0][1:] if args[0].startswith("&") and not args[0].startswith("&{") else args[0]
+                lo = self.t(f_["start"], depth + 1) if "start" in f_ else "0"
+                kind = (rg[2] or "").split("::")[-1]
+                if kind in ("Range", "RangeTo", "RangeFrom", "RangeFull"):
+                    hi = self.t(f_["end"], depth + 1) if "end" in f_ else "len(%s)" % base
+                    return "%s[%s..%s]" % (base, lo, hi)
         ty = ""
         if nm in ("from", "into", "try_from", "try_into", "size_of", "default", "new", "cast"):
             ty = "::<%s>" % ",".join([c.get("self_ty") or ""] + list(c.get("args") or []))[:80]
@@ -1013,15 +1025,31 @@ def fmt(s):
     return "\n".join(out)
 
 
-def check(run, rule, fn, want, F, what="", key=None, renames=None, hyps=None):
+def check(run, rule, fn, want, F, what="", key=None, renames=None, hyps=None, inline=None, per_outcome=False):
     import summ
     k = key or summ.fn_key(fn)
     try:
-        got = summarize(F, fn, renames=renames)
+        got = summarize(F, fn, renames=renames, inline=inline or inline_local)
     except Exception as ex:
         run.bad(rule, k, "%scould not be summarised: %s: %s" % ((what + ": ") if what else "", type(ex).__name__, ex), fn.where())
         return False
     diffs = compare(want, got, hyps)
+    if per_outcome:
+        # one instance per specified case; unexpected outcomes are reported once
+        okall = True
+        for i, o in enumerate(want["outcomes"]):
+            mine = [d for d in diffs if o["text"][:160] in d]
+            kk = "%s case %d: %s" % (k, i + 1, o["text"].rsplit(" => ", 1)[-1][:60])
+            if mine:
+                okall = False
+                run.bad(rule, kk, "%s%s" % ((what + ": ") if what else "", mine[0]), fn.where(), expected=fmt(want).splitlines(), found=fmt(got).splitlines())
+            else:
+                run.ok(rule, kk, "case as specified", fn.where(), method="semantic summary")
+        extra = [d for d in diffs if d.startswith("unexpected outcome")]
+        if extra:
+            okall = False
+            run.bad(rule, k + " extra behaviour", extra[0], fn.where(), expected=fmt(want).splitlines(), found=fmt(got).splitlines())
+        return okall
     if not diffs:
         run.ok(rule, k, what or "behaviour as specified", fn.where(), method="semantic summary")
         return True
